@@ -49,6 +49,9 @@ type report struct {
 	ChanOps         []string          `json:"channel_operations_modelled"`
 	ChanSkipped     []string          `json:"channel_operations_not_modelled"`
 	PackageLevelVar []string          `json:"package_level_vars"`
+	WorkSites       int               `json:"work_clock_sites"`
+	TimeRewrites    []string          `json:"wall_clock_reads_redirected"`
+	TimeUnmodelled  []string          `json:"wall_clock_uses_not_modelled"`
 }
 
 func die(format string, a ...interface{}) {
@@ -326,6 +329,23 @@ func hasBareContinue(body *ast.BlockStmt) bool {
 	return found
 }
 
+func workStmt() ast.Stmt {
+	return &ast.ExprStmt{X: &ast.CallExpr{Fun: simSel("Work")}}
+}
+
+// wantsWork: the loops and functions of the packages that implement values,
+// built-ins and the interpreter's helpers feed the work clock.
+func (r *rewriter) wantsWork() bool {
+	if r.driver || !r.ticks {
+		return false
+	}
+	switch strings.TrimPrefix(r.pkg.PkgPath, modPath) {
+	case "", "/object", "/environment", "/vm", "/stack":
+		return true
+	}
+	return false
+}
+
 func tickStmt() ast.Stmt {
 	return &ast.ExprStmt{X: &ast.CallExpr{Fun: simSel("Tick")}}
 }
@@ -468,6 +488,16 @@ func (r *rewriter) run() bool {
 				r.rep.TickSites = append(r.rep.TickSites, r.site(n.Pos(), curFn))
 				n.Body.List = append([]ast.Stmt{tickStmt()}, n.Body.List...)
 				r.needSim, changed = true, true
+			} else if r.wantsWork() && n.Body != nil {
+				r.rep.WorkSites++
+				n.Body.List = append([]ast.Stmt{workStmt()}, n.Body.List...)
+				r.needSim, changed = true, true
+			}
+		case *ast.FuncLit:
+			if r.wantsWork() && n.Body != nil {
+				r.rep.WorkSites++
+				n.Body.List = append([]ast.Stmt{workStmt()}, n.Body.List...)
+				r.needSim, changed = true, true
 			}
 		case *ast.RangeStmt:
 			if r.driver {
@@ -476,6 +506,10 @@ func (r *rewriter) run() bool {
 			if r.wantsTick(n.Body) {
 				r.rep.TickSites = append(r.rep.TickSites, r.site(n.Pos(), curFn))
 				n.Body.List = append([]ast.Stmt{tickStmt()}, n.Body.List...)
+				r.needSim, changed = true, true
+			} else if r.wantsWork() && n.Body != nil {
+				r.rep.WorkSites++
+				n.Body.List = append([]ast.Stmt{workStmt()}, n.Body.List...)
 				r.needSim, changed = true, true
 			}
 			tv, ok := info.Types[n.X]
@@ -537,6 +571,17 @@ func (r *rewriter) run() bool {
 					return true
 				}
 			}
+			// the wall clock (library only)
+			if !r.driver && r.isPkg(sel.X, "time") {
+				switch sel.Sel.Name {
+				case "Now", "Since", "Until", "Sleep":
+					r.rep.TimeRewrites = append(r.rep.TimeRewrites, r.site(n.Pos(), curFn)+" "+sel.Sel.Name)
+					n.Fun = simSel(sel.Sel.Name)
+					r.needSim, changed = true, true
+				case "After", "AfterFunc", "NewTimer", "NewTicker", "Tick":
+					r.rep.TimeUnmodelled = append(r.rep.TimeUnmodelled, r.site(n.Pos(), curFn)+" "+sel.Sel.Name)
+				}
+			}
 			// fmt.Print* -> verifsim.Print* (library only)
 			if !r.driver && r.isPkg(sel.X, "fmt") {
 				switch sel.Sel.Name {
@@ -565,6 +610,11 @@ func (r *rewriter) run() bool {
 				}
 			}
 		case *ast.FuncDecl:
+			if r.wantsWork() && n.Body != nil {
+				r.rep.WorkSites++
+				n.Body.List = append([]ast.Stmt{workStmt()}, n.Body.List...)
+				r.needSim, changed = true, true
+			}
 			if r.driver && n.Recv == nil && n.Name.Name == "main" && r.pkg.Name == "main" {
 				n.Name = ast.NewIdent("verifRealMain")
 				r.rep.DriverRewrites = append(r.rep.DriverRewrites, r.rel+" main->verifRealMain")
